@@ -140,6 +140,15 @@ func genParams(t *rapid.T) params {
 	}
 	p.Chunk = rapid.SampledFrom([]int{0, 1, 7, 64, 512}).Draw(t, "chunk")
 	p.PauseUS = rapid.SampledFrom([]int{0, 0, 1, 20, 200}).Draw(t, "pauseUS")
+	if rapid.IntRange(0, 7).Draw(t, "hugeLines") == 0 {
+		// lines far beyond any buffer size the library or the OS may think of (64 KiB pipe/console
+		// limits): still one write, one line
+		p.Sizes = append(p.Sizes, rapid.SampledFrom([]int{70000, 131100, 200000}).Draw(t, "huge"))
+		p.G, p.PerG = min(p.G, 8), min(p.PerG, 4)
+		if p.Chunk > 0 {
+			p.Chunk = 4096
+		}
+	}
 	p.Yield = rapid.Bool().Draw(t, "yield")
 	p.CtxFields = rapid.Bool().Draw(t, "ctxFields")
 	return p
@@ -250,7 +259,10 @@ func logOne(e event) {
 	if twoTags && e.g%2 == 1 {
 		tg = tagU
 	}
-	log.Info(context.WithValue(context.Background(), evKey{}, e), tg, log.Ints("pre", []int{e.g, e.seq}), log.Object("obj", log.Int("g", e.g), log.Strings("s", []string{"x"})),
+	// "ctl": control characters that differ from goroutine to goroutine (their \u00XX escapes are
+	// produced while other goroutines produce theirs)
+	ctl := string([]byte{byte(1 + e.g%7), 'x', byte(0x10 + (e.g+e.seq)%15), 0x7f})
+	log.Info(context.WithValue(context.Background(), evKey{}, e), tg, log.String("ctl", ctl), log.Ints("pre", []int{e.g, e.seq}), log.Object("obj", log.Int("g", e.g), log.Strings("s", []string{"x"})),
 		log.Int("g", e.g), log.Int("seq", e.seq), log.Int("len", len(e.fill)), log.String("fill", e.fill), log.Uint("crc", e.crc))
 }
 
@@ -347,7 +359,12 @@ func runCase(p params, dir string) error {
 		shared := make([]log.Field, 0, 32) // room for more than one call's fields
 		shared = append(shared, log.String("req", "r-1"), log.Int("uid", 7))
 		log.FieldsFromContext = func(context.Context) []log.Field { return shared }
-		log.StringFromContext = func(context.Context) string { return "trace-0001" }
+		log.StringFromContext = func(ctx context.Context) string { // one trace id per goroutine
+			if e, ok := ctx.Value(evKey{}).(event); ok {
+				return fmt.Sprintf("trace-%04d", e.g)
+			}
+			return "trace-none"
+		}
 		defer func() { log.FieldsFromContext, log.StringFromContext = nil, nil }()
 	}
 	if p.Path != "builtin" {
